@@ -22,7 +22,8 @@ theorem normBounds_closed (fy fx c p0 p1 h w : Int) (hh : 0 ≤ h) (hw : 0 ≤ w
        txl := min (max (c - p1) 0) w, txh := min w (max (fx - (p1 - c)) 0),
        syl := min (max (p0 - c) 0) fy, syh := min (max (p0 - c + h) 0) fy,
        sxl := min (max (p1 - c) 0) fx, sxh := min (max (p1 - c + w) 0) fx } := by
-  unfold normBounds Gen.sl_bounds Gen.sl_coord_y Gen.sl_coord_x pySliceLo pySliceHi
+  -- (written to survive rewrites of the slice arithmetic: every bound is normalised, then compared by `omega`)
+  unfold normBounds Gen.sl_bounds pySliceLo pySliceHi
   simp only [pyIdx_ite, pyIdx_some, pyIdx_none]
   congr 1 <;> omega
 
